@@ -100,6 +100,12 @@ func stateEat(b *bytes.Buffer, t *scanner.Token) stateHandler {
 }
 
 func stateValid(b *bytes.Buffer, t *scanner.Token) stateHandler {
+	if t.Type == scanner.TokenFunction && isURLFunction(t.Value) {
+		// A url( the scanner did not recognise as a complete URI token: browsers end such a
+		// (bad) URL at the first ')', whatever quotes it contains, so a ';' the scanner sees
+		// inside a string may end the declaration for them.  The boundaries cannot be trusted.
+		return nil
+	}
 	state := stateValid
 	if t.Type == scanner.TokenChar && t.Value == ";" {
 		// End of property.
@@ -107,4 +113,11 @@ func stateValid(b *bytes.Buffer, t *scanner.Token) stateHandler {
 	}
 	b.WriteString(t.Value)
 	return state
+}
+
+// isURLFunction reports whether the FUNCTION token value names url, spelled in any letter case
+// or with escapes.
+func isURLFunction(v string) bool {
+	name := strings.TrimSuffix(v, "(")
+	return strings.EqualFold(name, "url") || strings.Contains(name, "\\")
 }
